@@ -263,7 +263,7 @@ Definition cls_wf (e : entry) : bool :=
   match alookup A_CLASS e with Some vs => v_syn vs =? SYN_IUTF8 | None => true end.
 
 (* ------------------------------------------------------------------ correspondence *)
-Fixpoint serr_eqb (a b : serr) : bool :=
+Definition serr_eqb (a b : serr) : bool :=
   match a, b with
   | ENoClass, ENoClass | ECorrupted, ECorrupted => true
   | EInvalidClass x, EInvalidClass y | ESupplements x, ESupplements y
